@@ -52,9 +52,11 @@ CLAIMED = {
             "§7 C03 (and §2, §3)"),
     "C12": ("Def.tla defines quasiquote as template substitution and macro calls by expansion in the caller's scope; TLC "
             "enumerates every template / macro-call program up to a size bound; replayed through lisp.EVAL (which "
-            "implements the cons/concat/vec rewrite) and compared, including macroexpand and eval-of-macroexpand routes; "
+            "implements the cons/concat/vec rewrite) and compared, including macroexpand and eval-of-macroexpand routes, once built "
+            "directly and once printed and READ back (positioned forms); the lisp-defined protocol library (defprotocol/extend/"
+            "satisfies?/find-type), memoize and the folds are evaluated by Def.tla from their own source text (mode lib); "
             "random larger templates validated by TraceDef.tla; real loop iterations (expansion inside the loop) by TraceEval.tla",
-            "Exhaustive small-scope conformance of two grammars (quick: 17k templates + 10k macro programs; thorough: "
+            "Exhaustive small-scope conformance of three grammars (quick: 28k templates + 16k macro programs + 4.6k library programs; thorough: "
             "~200k + ~70k): value, effect order, expansion (generated symbols up to renaming).",
             "Trusts TLC, harness bridge; position of the failure of a non-sequence splice relative to later effects is "
             "abstained on.",
